@@ -2,15 +2,40 @@
 -> lean/PyttbModel/Generated/Handles.lean (definitions only).
 
 The Python source is parsed with `ast` on every run.  Every handle body becomes a term
-of `Pyttb.Expr` (lean/PyttbModel/Alg/GcpExpr.lean); the if/elif chain of
-`fg_setup.setup` becomes `setupTable : Objective -> SetupRow`.  Anything outside the
-accepted AST subset is reported as a lost anchor, never guessed.
+of `Pyttb.Expr` (lean/PyttbModel/Alg/GcpExpr.lean); `fg_setup.setup` is executed
+symbolically once per objective and becomes `setupTable : Objective -> SetupRow`.
+Anything outside the accepted AST subset is reported as a lost anchor, never guessed.
 
-Accepted subset of a handle:  def f(data, model[, param]) with an optional docstring,
-any number of `name = <expr>` assignments (inlined) and a final `return <expr>`, where
-<expr> is built from the argument names, local names, the module constant EPS, numeric
-literals, np.pi, + - * / ** and unary minus, np.log / np.exp / np.abs / np.sign /
-np.logical_not with one positional argument, and one-operator comparisons < > <= >=.
+Accepted subset of a handle
+  def f(<data>, <model>[, <param>[= default]]) or def f(<data>, <model>, *, <param>) with an
+  optional docstring, any number of local assignments (`name = e`, `a, b = e1, e2`,
+  annotated, and `name op= e` on a computed local; all inlined), `pass`, and a final
+  `return <expr>`, where <expr> is built from
+  - the argument names, local names, module-level constants of handles.py (EPS stays a
+    named constant, every other one is inlined), numeric literals, `float(e)` /
+    `np.float64(e)` / `np.asarray(e)` (identity), np.pi / math.pi, np.e / math.e;
+  - + - * / ** and unary + -, parentheses; `**` with a non-negative integral literal is a
+    natural power, with a negative integral literal the reciprocal of one, otherwise a real
+    power; np.power / np.float_power / pow, np.square, np.sqrt, np.reciprocal, np.negative,
+    np.add / subtract / multiply / divide / true_divide;
+  - np.log / np.exp / np.log1p (log(1 + x)) / np.expm1 (exp(x) - 1) / np.abs / np.absolute /
+    np.fabs / abs / np.sign, and math.log / exp / sqrt / fabs / pow;
+  - comparisons < > <= >= in either orientation (chained ones are conjunctions),
+    np.less / greater / less_equal / greater_equal, np.logical_not / `~` , np.logical_and /
+    `&`, np.logical_or / `|` on comparisons;
+  - np.where(c, a, b), `a if c else b`, np.maximum / np.fmax / max, np.minimum / np.fmin /
+    min, np.clip(a, lo, hi) with a comparison-valued condition (-> `ite`);
+  - calls of other module-level functions (and module-level lambdas) of handles.py with
+    positional and keyword arguments and defaults: inlined.
+
+Accepted subset of fg_setup.setup: straight-line code, `if` / `elif` / `else` and `match`
+on `objective` (`==`, `is`, `in (..)`, either orientation), guards whose body only raises,
+assignments (also tuple assignments and local aliases), a dict literal indexed by the
+objective, and `return (fn, grad, bound)` anywhere.  A handle is `handles.f`, an imported
+`f`, `partial(h, <param>=additional_parameter)` (also functools.partial), a
+`lambda d, m[, t=additional_parameter]: h(d, m, …)` or a local `def` of that form, with
+positional or keyword pass-through; the bound a number, `float(..)` of one, or
+-np.inf / -math.inf / float("-inf") / -float("inf").
 """
 from __future__ import annotations
 
@@ -27,9 +52,12 @@ OUT = LEAN / "PyttbModel" / "Generated" / "Handles.lean"
 OBJECTIVES = ["GAUSSIAN", "BERNOULLI_ODDS", "BERNOULLI_LOGIT", "POISSON", "POISSON_LOG",
               "RAYLEIGH", "GAMMA", "HUBER", "NEGATIVE_BINOMIAL", "BETA"]
 
-UNARY_CALLS = {"log": "log", "exp": "exp", "abs": "abs", "absolute": "abs", "sign": "sign",
-               "logical_not": "lnot"}
+NP_MODULES = ("np", "numpy")
 BINOPS = {ast.Add: "add", ast.Sub: "sub", ast.Mult: "mul", ast.Div: "div"}
+MAX_INLINE_DEPTH = 12
+
+ONE = ("const", Fraction(1))
+ZERO = ("const", Fraction(0))
 
 
 class Lost(Exception):
@@ -38,18 +66,115 @@ class Lost(Exception):
 
 # ----------------------------------------------------------------------------
 # expression trees: ("var",) ("data",) ("param",) ("const", Fraction) ("eps",) ("pi",)
-# ("add"|"sub"|"mul"|"div"|"powReal"|"lt", a, b) ("neg"|"log"|"exp"|"abs"|"sign"|"lnot", a)
-# ("powNat", a, n)
+# ("add"|"sub"|"mul"|"div"|"powReal"|"lt", a, b) ("neg"|"log"|"exp"|"abs"|"sign"|"lnot"|"sqrt", a)
+# ("powNat", a, n) ("ite", c, a, b)
 # ----------------------------------------------------------------------------
 def _num(node):
     if isinstance(node, ast.Constant) and isinstance(node.value, (int, float)) and not isinstance(node.value, bool):
-        return Fraction(node.value)
+        v = node.value
+        if isinstance(v, float) and (v != v or v in (float("inf"), float("-inf"))):
+            return None
+        return Fraction(v)
     return None
 
 
-def tr_expr(node, env, where):
+def is_bool(e) -> bool:
+    """mirror of Expr.isBool"""
+    if e[0] == "lt":
+        return True
+    if e[0] == "lnot":
+        return is_bool(e[1])
+    if e[0] == "mul":
+        return is_bool(e[1]) and is_bool(e[2])
+    return False
+
+
+def t_le(a, b):
+    return ("lnot", ("lt", b, a))
+
+
+def t_or(a, b):
+    return ("lnot", ("mul", ("lnot", a), ("lnot", b)))
+
+
+def t_max(a, b):
+    return ("ite", ("lt", a, b), b, a)
+
+
+def t_min(a, b):
+    return ("ite", ("lt", a, b), a, b)
+
+
+def t_pow(base, expo_tree):
+    """`base ** expo`: a literal integral exponent is a natural power (or its reciprocal)."""
+    if expo_tree[0] == "const":
+        q = expo_tree[1]
+        if q.denominator == 1 and 0 <= q.numerator <= 64:
+            return ("powNat", base, int(q.numerator))
+        if q.denominator == 1 and -64 <= q.numerator < 0:
+            return ("div", ONE, ("powNat", base, int(-q.numerator)))
+    return ("powReal", base, expo_tree)
+
+
+UNARY = {
+    "log": lambda a: ("log", a), "exp": lambda a: ("exp", a), "abs": lambda a: ("abs", a),
+    "absolute": lambda a: ("abs", a), "fabs": lambda a: ("abs", a), "sign": lambda a: ("sign", a),
+    "sqrt": lambda a: ("sqrt", a), "square": lambda a: ("powNat", a, 2),
+    "log1p": lambda a: ("log", ("add", ONE, a)), "expm1": lambda a: ("sub", ("exp", a), ONE),
+    "negative": lambda a: ("neg", a), "reciprocal": lambda a: ("div", ONE, a),
+    "positive": lambda a: a, "asarray": lambda a: a, "array": lambda a: a, "float64": lambda a: a,
+    "asanyarray": lambda a: a,
+}
+BINARY = {
+    "add": lambda a, b: ("add", a, b), "subtract": lambda a, b: ("sub", a, b),
+    "multiply": lambda a, b: ("mul", a, b), "divide": lambda a, b: ("div", a, b),
+    "true_divide": lambda a, b: ("div", a, b), "power": t_pow, "float_power": t_pow,
+    "maximum": t_max, "fmax": t_max, "minimum": t_min, "fmin": t_min,
+    "less": lambda a, b: ("lt", a, b), "greater": lambda a, b: ("lt", b, a),
+    "less_equal": t_le, "greater_equal": lambda a, b: t_le(b, a),
+}
+MATH_UNARY = {"log": UNARY["log"], "exp": UNARY["exp"], "sqrt": UNARY["sqrt"], "fabs": UNARY["abs"],
+              "log1p": UNARY["log1p"], "expm1": UNARY["expm1"]}
+
+
+class Module:
+    """What a handle body may refer to besides its own arguments and locals."""
+
+    def __init__(self, fns, lambdas, consts, eps_known):
+        self.fns = fns            # name -> ast.FunctionDef
+        self.lambdas = lambdas    # name -> ast.Lambda
+        self.consts = consts      # name -> expression tree (module-level constants, EPS as ("eps",))
+        self.eps_known = eps_known
+
+
+def _callable_params(fn):
+    """-> (positional parameter names, {name: default AST}, keyword-only names) of a def / lambda"""
+    a = fn.args
+    if a.vararg or a.kwarg:
+        raise Lost(f"{getattr(fn, 'name', '<lambda>')}: *args / **kwargs in a signature")
+    pos = [x.arg for x in (a.posonlyargs + a.args)]
+    defaults = {}
+    for name, d in zip(pos[len(pos) - len(a.defaults):], a.defaults):
+        defaults[name] = d
+    kwonly = [x.arg for x in a.kwonlyargs]
+    for name, d in zip(kwonly, a.kw_defaults):
+        if d is not None:
+            defaults[name] = d
+    return pos, defaults, kwonly
+
+
+def tr_expr(node, env, mod: Module, where, depth=0):
     def bad(what):
         raise Lost(f"{where}: unsupported {what} at line {getattr(node, 'lineno', '?')}")
+
+    def rec(n, e=None):
+        return tr_expr(n, env if e is None else e, mod, where, depth)
+
+    def boolean(n, what):
+        t = rec(n)
+        if not is_bool(t):
+            raise Lost(f"{where}: {what} at line {getattr(n, 'lineno', '?')} is not a comparison")
+        return t
 
     q = _num(node)
     if q is not None:
@@ -57,99 +182,224 @@ def tr_expr(node, env, where):
     if isinstance(node, ast.Name):
         if node.id in env:
             return env[node.id]
+        if node.id in mod.consts:
+            return mod.consts[node.id]
         bad(f"name {node.id!r}")
     if isinstance(node, ast.Attribute):
-        if isinstance(node.value, ast.Name) and node.value.id == "np" and node.attr == "pi":
-            return ("pi",)
+        if isinstance(node.value, ast.Name) and node.value.id in NP_MODULES + ("math",):
+            if node.attr == "pi":
+                return ("pi",)
+            if node.attr == "e":
+                return ("exp", ONE)
         bad(f"attribute {ast.unparse(node)!r}")
     if isinstance(node, ast.UnaryOp):
         if isinstance(node.op, ast.USub):
             q = _num(node.operand)
             if q is not None:
                 return ("const", -q)
-            return ("neg", tr_expr(node.operand, env, where))
+            return ("neg", rec(node.operand))
+        if isinstance(node.op, ast.UAdd):
+            return rec(node.operand)
+        if isinstance(node.op, ast.Invert):
+            return ("lnot", boolean(node.operand, "operand of ~"))
         bad(f"unary operator {type(node.op).__name__}")
     if isinstance(node, ast.BinOp):
         if type(node.op) in BINOPS:
-            return (BINOPS[type(node.op)], tr_expr(node.left, env, where), tr_expr(node.right, env, where))
+            return (BINOPS[type(node.op)], rec(node.left), rec(node.right))
         if isinstance(node.op, ast.Pow):
-            base = tr_expr(node.left, env, where)
-            if isinstance(node.right, ast.Constant) and isinstance(node.right.value, int) \
-                    and not isinstance(node.right.value, bool) and node.right.value >= 0:
-                return ("powNat", base, int(node.right.value))
-            return ("powReal", base, tr_expr(node.right, env, where))
+            return t_pow(rec(node.left), rec(node.right))
+        if isinstance(node.op, ast.BitAnd):
+            return ("mul", boolean(node.left, "operand of &"), boolean(node.right, "operand of &"))
+        if isinstance(node.op, ast.BitOr):
+            return t_or(boolean(node.left, "operand of |"), boolean(node.right, "operand of |"))
         bad(f"binary operator {type(node.op).__name__}")
+    if isinstance(node, ast.IfExp):
+        return ("ite", boolean(node.test, "condition"), rec(node.body), rec(node.orelse))
+    if isinstance(node, ast.Compare):
+        parts = []
+        left = rec(node.left)
+        for op, cmp_node in zip(node.ops, node.comparators):
+            right = rec(cmp_node)
+            if isinstance(op, ast.Lt):
+                parts.append(("lt", left, right))
+            elif isinstance(op, ast.Gt):
+                parts.append(("lt", right, left))
+            elif isinstance(op, ast.LtE):
+                parts.append(t_le(left, right))
+            elif isinstance(op, ast.GtE):
+                parts.append(t_le(right, left))
+            else:
+                bad(f"comparison {type(op).__name__}")
+            left = right
+        out = parts[0]
+        for p in parts[1:]:
+            out = ("mul", out, p)
+        return out
     if isinstance(node, ast.Call):
         f = node.func
-        if (isinstance(f, ast.Attribute) and isinstance(f.value, ast.Name) and f.value.id == "np"
-                and f.attr in UNARY_CALLS and len(node.args) == 1 and not node.keywords):
-            return (UNARY_CALLS[f.attr], tr_expr(node.args[0], env, where))
+        args = list(node.args)
+        if any(isinstance(a, ast.Starred) for a in args) or any(k.arg is None for k in node.keywords):
+            bad("argument unpacking")
+        kws = {k.arg: k.value for k in node.keywords}
+        # NumPy / math functions
+        if isinstance(f, ast.Attribute) and isinstance(f.value, ast.Name) and f.value.id in NP_MODULES:
+            n = f.attr
+            if n in UNARY and len(args) == 1 and not kws:
+                return UNARY[n](rec(args[0]))
+            if n in BINARY and len(args) == 2 and not kws:
+                return BINARY[n](rec(args[0]), rec(args[1]))
+            if n == "logical_not" and len(args) == 1 and not kws:
+                return ("lnot", boolean(args[0], "argument of logical_not"))
+            if n == "logical_and" and len(args) == 2 and not kws:
+                return ("mul", boolean(args[0], "argument of logical_and"), boolean(args[1], "argument of logical_and"))
+            if n == "logical_or" and len(args) == 2 and not kws:
+                return t_or(boolean(args[0], "argument of logical_or"), boolean(args[1], "argument of logical_or"))
+            if n == "where" and len(args) == 3 and not kws:
+                return ("ite", boolean(args[0], "condition of np.where"), rec(args[1]), rec(args[2]))
+            if n == "clip":
+                names = ["a", "a_min", "a_max"]
+                got = dict(zip(names, args))
+                for k, v in kws.items():
+                    if k not in names or k in got:
+                        bad(f"keyword {k!r} of np.clip")
+                    got[k] = v
+                if set(got) == set(names):
+                    return t_min(t_max(rec(got["a"]), rec(got["a_min"])), rec(got["a_max"]))
+            bad(f"call {ast.unparse(node.func)!r}")
+        if isinstance(f, ast.Attribute) and isinstance(f.value, ast.Name) and f.value.id == "math":
+            if f.attr in MATH_UNARY and len(args) == 1 and not kws:
+                return MATH_UNARY[f.attr](rec(args[0]))
+            if f.attr == "pow" and len(args) == 2 and not kws:
+                return t_pow(rec(args[0]), rec(args[1]))
+            bad(f"call {ast.unparse(node.func)!r}")
+        if isinstance(f, ast.Name) and f.id not in env:
+            n = f.id
+            if n in mod.fns or n in mod.lambdas:
+                return inline_call(mod.fns.get(n) or mod.lambdas[n], n, args, kws, env, mod, where, depth, node)
+            if n == "float" and len(args) == 1 and not kws:
+                return rec(args[0])
+            if n == "int" and len(args) == 1 and not kws and _num(args[0]) is not None \
+                    and _num(args[0]).denominator == 1:
+                return ("const", _num(args[0]))
+            if n == "abs" and len(args) == 1 and not kws:
+                return ("abs", rec(args[0]))
+            if n == "pow" and len(args) == 2 and not kws:
+                return t_pow(rec(args[0]), rec(args[1]))
+            if n in ("max", "min") and len(args) == 2 and not kws:
+                return (t_max if n == "max" else t_min)(rec(args[0]), rec(args[1]))
         bad(f"call {ast.unparse(node.func)!r}")
-    if isinstance(node, ast.Compare):
-        if len(node.ops) == 1:
-            a = tr_expr(node.left, env, where)
-            b = tr_expr(node.comparators[0], env, where)
-            op = node.ops[0]
-            if isinstance(op, ast.Lt):
-                return ("lt", a, b)
-            if isinstance(op, ast.Gt):
-                return ("lt", b, a)
-            if isinstance(op, ast.LtE):
-                return ("lnot", ("lt", b, a))
-            if isinstance(op, ast.GtE):
-                return ("lnot", ("lt", a, b))
-        bad("comparison")
     bad(type(node).__name__)
 
 
-def tr_function(fn: ast.FunctionDef, eps_known: bool):
-    """-> (param name or None, expression tree)"""
-    where = fn.name
-    a = fn.args
-    if a.vararg or a.kwarg or a.kwonlyargs or a.posonlyargs or a.defaults:
-        raise Lost(f"{where}: unsupported signature")
-    names = [x.arg for x in a.args]
-    if len(names) not in (2, 3) or names[0] != "data" or names[1] != "model":
-        raise Lost(f"{where}: expected arguments (data, model[, parameter]), found {names}")
-    env = {"data": ("data",), "model": ("var",)}
-    if eps_known:
-        env["EPS"] = ("eps",)
-    param = None
-    if len(names) == 3:
-        param = names[2]
-        env[param] = ("param",)
-    body = list(fn.body)
+def inline_call(fn, name, args, kws, env, mod, where, depth, node):
+    """A call of another module-level function of handles.py: its body with the arguments substituted."""
+    if depth >= MAX_INLINE_DEPTH:
+        raise Lost(f"{where}: helper calls nested deeper than {MAX_INLINE_DEPTH} (recursion?) at {name}")
+    pos, defaults, kwonly = _callable_params(fn)
+    if len(args) > len(pos):
+        raise Lost(f"{where}: too many arguments for {name} at line {node.lineno}")
+    bound = {}
+    for p, a in zip(pos, args):
+        bound[p] = tr_expr(a, env, mod, where, depth)
+    for k, v in kws.items():
+        if k not in pos + kwonly or k in bound:
+            raise Lost(f"{where}: bad keyword {k!r} for {name} at line {node.lineno}")
+        bound[k] = tr_expr(v, env, mod, where, depth)
+    for p in pos + kwonly:
+        if p not in bound:
+            if p not in defaults:
+                raise Lost(f"{where}: argument {p!r} of {name} missing at line {node.lineno}")
+            bound[p] = tr_expr(defaults[p], {}, mod, f"{where}>{name}", depth + 1)
+    if isinstance(fn, ast.Lambda):
+        return tr_expr(fn.body, bound, mod, f"{where}>{name}", depth + 1)
+    return tr_body(fn, bound, mod, f"{where}>{name}", depth + 1)
+
+
+def _strip_docstring(body):
+    body = list(body)
     if body and isinstance(body[0], ast.Expr) and isinstance(body[0].value, ast.Constant) \
             and isinstance(body[0].value.value, str):
         body = body[1:]
+    return body
+
+
+AUG = {ast.Add: "add", ast.Sub: "sub", ast.Mult: "mul", ast.Div: "div"}
+
+
+def tr_body(fn: ast.FunctionDef, env, mod: Module, where, depth=0):
+    """straight-line body ending in `return <expr>` with the parameters bound by `env`"""
+    args0 = dict(env)
+    body = _strip_docstring(fn.body)
     if not body or not isinstance(body[-1], ast.Return) or body[-1].value is None:
         raise Lost(f"{where}: body does not end in `return <expr>`")
     for st in body[:-1]:
+        if isinstance(st, ast.Pass):
+            continue
         if isinstance(st, ast.Assign) and len(st.targets) == 1 and isinstance(st.targets[0], ast.Name):
-            tgt = st.targets[0].id
+            env = {**env, st.targets[0].id: tr_expr(st.value, env, mod, where, depth)}
+        elif isinstance(st, ast.Assign) and len(st.targets) == 1 and isinstance(st.targets[0], ast.Tuple) \
+                and isinstance(st.value, ast.Tuple) and len(st.value.elts) == len(st.targets[0].elts) \
+                and all(isinstance(t, ast.Name) for t in st.targets[0].elts):
+            vals = [tr_expr(v, env, mod, where, depth) for v in st.value.elts]
+            env = {**env, **{t.id: v for t, v in zip(st.targets[0].elts, vals)}}
         elif isinstance(st, ast.AnnAssign) and isinstance(st.target, ast.Name) and st.value is not None:
+            env = {**env, st.target.id: tr_expr(st.value, env, mod, where, depth)}
+        elif isinstance(st, ast.AugAssign) and isinstance(st.target, ast.Name) \
+                and (type(st.op) in AUG or isinstance(st.op, ast.Pow)):
             tgt = st.target.id
+            if tgt not in env:
+                raise Lost(f"{where}: augmented assignment to unknown name {tgt!r} at line {st.lineno}")
+            # `model += …` (or an alias of an argument) would change the caller's array in place
+            if env[tgt] in (("var",), ("data",), ("param",)) or any(env[tgt] is v for v in args0.values()):
+                raise Lost(f"{where}: in-place update of an argument ({tgt}) at line {st.lineno}")
+            rhs = tr_expr(st.value, env, mod, where, depth)
+            new = t_pow(env[tgt], rhs) if isinstance(st.op, ast.Pow) else (AUG[type(st.op)], env[tgt], rhs)
+            env = {**env, tgt: new}
         else:
             raise Lost(f"{where}: unsupported statement {type(st).__name__} at line {st.lineno}")
-        if tgt in ("data", "model", "EPS") or tgt == param:
-            raise Lost(f"{where}: assignment to {tgt}")
-        env = {**env, tgt: tr_expr(st.value, env, where)}
-    return param, tr_expr(body[-1].value, env, where)
+    return tr_expr(body[-1].value, env, mod, where, depth)
+
+
+def tr_function(fn: ast.FunctionDef, mod: Module):
+    """-> (param name or None, expression tree) of a handle `def f(data, model[, param])`"""
+    where = fn.name
+    pos, _defaults, kwonly = _callable_params(fn)
+    if len(pos) + len(kwonly) not in (2, 3) or len(pos) < 2 or len(kwonly) > 1:
+        raise Lost(f"{where}: expected arguments (data, model[, parameter]), found {pos + kwonly}")
+    env = {pos[0]: ("data",), pos[1]: ("var",)}
+    param = None
+    if len(pos) + len(kwonly) == 3:
+        param = (pos + kwonly)[2]
+        env[param] = ("param",)
+    if len(set(pos + kwonly)) != len(pos + kwonly):
+        raise Lost(f"{where}: repeated argument name")
+    return param, tr_body(fn, env, mod, where)
 
 
 # ----------------------------------------------------------------------------
 # parsing the two modules
 # ----------------------------------------------------------------------------
 def parse_handles(src: str):
-    """-> (eps Fraction | None, enum member names, {function name: FunctionDef})"""
-    mod = ast.parse(src)
+    """-> (eps Fraction | None, enum member names, Module)"""
+    tree = ast.parse(src)
     eps = None
     members = None
-    fns = {}
-    for st in mod.body:
-        if isinstance(st, ast.Assign) and len(st.targets) == 1 and isinstance(st.targets[0], ast.Name) \
-                and st.targets[0].id == "EPS":
-            eps = _num(st.value)
+    fns, lambdas, const_nodes = {}, {}, []
+    for st in tree.body:
+        tgt, val = None, None
+        if isinstance(st, ast.Assign) and len(st.targets) == 1 and isinstance(st.targets[0], ast.Name):
+            tgt, val = st.targets[0].id, st.value
+        elif isinstance(st, ast.AnnAssign) and isinstance(st.target, ast.Name) and st.value is not None:
+            tgt, val = st.target.id, st.value
+        if tgt == "EPS":
+            eps = _num(val)
+            if eps is None and isinstance(val, ast.Call) and isinstance(val.func, ast.Name) \
+                    and val.func.id == "float" and len(val.args) == 1:
+                eps = _num(val.args[0])
+        elif tgt is not None and isinstance(val, ast.Lambda):
+            lambdas[tgt] = val
+        elif tgt is not None:
+            const_nodes.append((tgt, val))
         elif isinstance(st, ast.ClassDef) and st.name == "Objectives":
             members = []
             for c in st.body:
@@ -157,89 +407,341 @@ def parse_handles(src: str):
                     members.append(c.targets[0].id)
         elif isinstance(st, ast.FunctionDef):
             fns[st.name] = st
-    return eps, members, fns
+    mod = Module(fns, lambdas, {}, eps is not None)
+    if eps is not None:
+        mod.consts["EPS"] = ("eps",)
+    # other module-level constants, in order; the ones that are not scalar expressions are simply not constants
+    for name, val in const_nodes:
+        try:
+            mod.consts[name] = tr_expr(val, {}, mod, f"handles.{name}")
+        except Lost:
+            pass
+    return eps, members, mod
 
 
-def _handle_ref(node, where):
-    """`handles.f` -> ("f", None);  `partial(handles.f, kw=additional_parameter)` -> ("f", "kw")"""
-    if isinstance(node, ast.Attribute) and isinstance(node.value, ast.Name) and node.value.id == "handles":
-        return node.attr, None
-    if (isinstance(node, ast.Call) and isinstance(node.func, ast.Name) and node.func.id == "partial"
-            and len(node.args) == 1 and len(node.keywords) == 1):
-        name, _ = _handle_ref(node.args[0], where)
-        kw = node.keywords[0]
-        if kw.arg is not None and isinstance(kw.value, ast.Name) and kw.value.id == "additional_parameter":
-            return name, kw.arg
-    raise Lost(f"{where}: unsupported handle expression {ast.unparse(node)!r}")
+class _Unknown:
+    """value of a name the symbolic execution of `setup` knows nothing about"""
 
 
-def _bound(node, where):
-    q = _num(node)
-    if q is not None:
-        return ("fin", q)
-    if (isinstance(node, ast.UnaryOp) and isinstance(node.op, ast.USub) and isinstance(node.operand, ast.Attribute)
-            and isinstance(node.operand.value, ast.Name) and node.operand.value.id in ("np", "math")
-            and node.operand.attr == "inf"):
-        return ("negInf",)
-    raise Lost(f"{where}: unsupported lower bound {ast.unparse(node)!r}")
+def _objective_of(node, ctx):
+    """`Objectives.X` (or an imported / aliased spelling) -> "X" """
+    if isinstance(node, ast.Attribute) and isinstance(node.value, ast.Name) and node.value.id == "Objectives":
+        return node.attr
+    if isinstance(node, ast.Attribute) and isinstance(node.value, ast.Attribute) \
+            and node.value.attr == "Objectives" and isinstance(node.value.value, ast.Name) \
+            and node.value.value.id == "handles":
+        return node.attr
+    return None
 
 
-def _only_raises(st):
-    """`if <cond>: raise ...` guards (argument validation) do not take part in the table."""
-    return isinstance(st, ast.If) and not st.orelse and all(isinstance(b, ast.Raise) for b in st.body)
+class SetupExec:
+    """Symbolic execution of `fg_setup.setup` for one fixed objective."""
+
+    def __init__(self, setup: ast.FunctionDef, objective: str, imported: dict):
+        pos, _d, kwonly = _callable_params(setup)
+        if len(pos) < 1:
+            raise Lost("fg_setup.setup: no objective argument")
+        self.obj_name = pos[0]
+        self.data_name = pos[1] if len(pos) > 1 else None
+        self.param_name = pos[2] if len(pos) > 2 else (kwonly[0] if kwonly else None)
+        self.objective = objective
+        self.imported = imported          # names imported from pyttb.gcp.handles -> handle name
+        self.env = {}                     # local name -> AST node (already resolved) | ast.FunctionDef
+        self.where = f"fg_setup.setup[{objective}]"
+
+    # --- conditions -------------------------------------------------------------------------------------
+    def test(self, t):
+        """True / False when the test is about the objective, None otherwise"""
+        if isinstance(t, ast.Compare) and len(t.ops) == 1:
+            l, r, op = t.left, t.comparators[0], t.ops[0]
+            is_obj = lambda n: isinstance(n, ast.Name) and n.id == self.obj_name  # noqa: E731
+            if isinstance(op, (ast.Eq, ast.Is, ast.NotEq, ast.IsNot)):
+                other = r if is_obj(l) else (l if is_obj(r) else None)
+                if other is not None:
+                    o = _objective_of(other, self)
+                    if o is None:
+                        raise Lost(f"{self.where}: branch test {ast.unparse(t)!r}")
+                    eq = o == self.objective
+                    return eq if isinstance(op, (ast.Eq, ast.Is)) else not eq
+            if isinstance(op, (ast.In, ast.NotIn)) and is_obj(l) and isinstance(r, (ast.Tuple, ast.List, ast.Set)):
+                names = [_objective_of(e, self) for e in r.elts]
+                if None in names:
+                    raise Lost(f"{self.where}: branch test {ast.unparse(t)!r}")
+                inn = self.objective in names
+                return inn if isinstance(op, ast.In) else not inn
+        if isinstance(t, ast.BoolOp):
+            vals = [self.test(v) for v in t.values]
+            if None not in vals:
+                return all(vals) if isinstance(t.op, ast.And) else any(vals)
+            if isinstance(t.op, ast.And) and any(v is False for v in vals):
+                return False
+            if isinstance(t.op, ast.Or) and any(v is True for v in vals):
+                return True
+            return None
+        if isinstance(t, ast.UnaryOp) and isinstance(t.op, ast.Not):
+            v = self.test(t.operand)
+            return None if v is None else not v
+        return None
+
+    # --- values -------------------------------------------------------------------------------------------
+    def resolve(self, node):
+        """substitute local aliases; index a dict literal by the objective"""
+        if isinstance(node, ast.Name) and node.id in self.env:
+            return self.env[node.id]
+        if isinstance(node, ast.Subscript) and isinstance(node.slice, ast.Name) and node.slice.id == self.obj_name:
+            d = self.resolve(node.value)
+            if isinstance(d, ast.Dict):
+                for k, v in zip(d.keys, d.values):
+                    if k is not None and _objective_of(k, self) == self.objective:
+                        return self.resolve(v)
+                raise Lost(f"{self.where}: the table has no entry for this objective")
+        return node
+
+    @staticmethod
+    def _only_raises(body):
+        return all(isinstance(b, ast.Raise) or
+                   (isinstance(b, ast.Expr) and isinstance(b.value, ast.Call)
+                    and "warn" in ast.unparse(b.value.func)) for b in body) and \
+            any(isinstance(b, ast.Raise) for b in body)
+
+    def assign(self, target, value):
+        if isinstance(target, ast.Name):
+            self.env[target.id] = self.resolve(value)
+        elif isinstance(target, (ast.Tuple, ast.List)):
+            v = self.resolve(value)
+            if not isinstance(v, (ast.Tuple, ast.List)) or len(v.elts) != len(target.elts):
+                raise Lost(f"{self.where}: unsupported unpacking at line {target.lineno}")
+            vals = [self.resolve(e) for e in v.elts]
+            for t, e in zip(target.elts, vals):
+                if not isinstance(t, ast.Name):
+                    raise Lost(f"{self.where}: unsupported assignment target at line {target.lineno}")
+                self.env[t.id] = e
+        else:
+            raise Lost(f"{self.where}: unsupported assignment target at line {target.lineno}")
+
+    def run(self, body):
+        """-> ("return", node) | ("raise",) | None (fell through)"""
+        for st in _strip_docstring(body):
+            if isinstance(st, ast.Pass):
+                continue
+            if isinstance(st, ast.Expr):      # a bare call (warning / logging) or a string
+                continue
+            if isinstance(st, ast.Raise):
+                return ("raise",)
+            if isinstance(st, ast.Return):
+                if st.value is None:
+                    raise Lost(f"{self.where}: bare return")
+                return ("return", self.resolve(st.value))
+            if isinstance(st, ast.Assign):
+                for t in st.targets:
+                    self.assign(t, st.value)
+                continue
+            if isinstance(st, ast.AnnAssign):
+                if st.value is not None:
+                    self.assign(st.target, st.value)
+                continue
+            if isinstance(st, ast.FunctionDef):
+                self.env[st.name] = st
+                continue
+            if isinstance(st, ast.If):
+                v = self.test(st.test)
+                if v is None:
+                    # a guard that does not mention the objective: it may only raise (argument validation)
+                    if self._only_raises(st.body) and (not st.orelse or self._only_raises(st.orelse)):
+                        continue
+                    if self._only_raises(st.body):
+                        r = self.run(st.orelse)
+                        if r is not None:
+                            return r
+                        continue
+                    raise Lost(f"{self.where}: unsupported condition {ast.unparse(st.test)!r} at line {st.lineno}")
+                r = self.run(st.body if v else st.orelse)
+                if r is not None:
+                    return r
+                continue
+            if hasattr(ast, "Match") and isinstance(st, ast.Match):
+                if not (isinstance(st.subject, ast.Name) and st.subject.id == self.obj_name):
+                    raise Lost(f"{self.where}: match on {ast.unparse(st.subject)!r}")
+                taken = None
+                for case in st.cases:
+                    pats = case.pattern.patterns if isinstance(case.pattern, ast.MatchOr) else [case.pattern]
+                    hit = False
+                    for p in pats:
+                        if isinstance(p, ast.MatchValue):
+                            o = _objective_of(p.value, self)
+                            if o is None:
+                                raise Lost(f"{self.where}: case pattern at line {case.pattern.lineno}")
+                            hit = hit or o == self.objective
+                        elif isinstance(p, ast.MatchAs) and p.pattern is None:
+                            hit = True
+                        else:
+                            raise Lost(f"{self.where}: case pattern at line {case.pattern.lineno}")
+                    if hit and case.guard is None:
+                        taken = case
+                        break
+                    if case.guard is not None:
+                        raise Lost(f"{self.where}: guarded case at line {case.pattern.lineno}")
+                if taken is not None:
+                    r = self.run(taken.body)
+                    if r is not None:
+                        return r
+                continue
+            raise Lost(f"{self.where}: unsupported statement {type(st).__name__} at line {st.lineno}")
+        return None
+
+    # --- reading the returned triple -------------------------------------------------------------------
+    def is_param(self, node):
+        node = self.resolve(node)
+        if isinstance(node, ast.Call) and isinstance(node.func, ast.Name) and node.func.id == "float" \
+                and len(node.args) == 1 and not node.keywords:
+            return self.is_param(node.args[0])
+        return isinstance(node, ast.Name) and node.id == self.param_name
+
+    def handle_name(self, node):
+        node = self.resolve(node)
+        if isinstance(node, ast.Attribute) and isinstance(node.value, ast.Name) and node.value.id == "handles":
+            return node.attr
+        if isinstance(node, ast.Name) and node.id in self.imported:
+            return self.imported[node.id]
+        return None
+
+    def handle_ref(self, node):
+        """-> (handle name, binding) with binding None | ("kw", name) | ("pos3",)"""
+        node = self.resolve(node)
+        name = self.handle_name(node)
+        if name is not None:
+            return name, None
+        # partial(h, kw=additional_parameter)
+        if isinstance(node, ast.Call) and (
+                (isinstance(node.func, ast.Name) and node.func.id == "partial") or
+                (isinstance(node.func, ast.Attribute) and node.func.attr == "partial"
+                 and isinstance(node.func.value, ast.Name) and node.func.value.id == "functools")):
+            if len(node.args) == 1 and len(node.keywords) == 1 and node.keywords[0].arg is not None:
+                name, inner = self.handle_ref(node.args[0])
+                if inner is None:
+                    if self.is_param(node.keywords[0].value):
+                        return name, ("kw", node.keywords[0].arg)
+                    raise Lost(f"{self.where}: {name} is bound to {ast.unparse(node.keywords[0].value)!r}, "
+                               f"not to the additional parameter")
+            raise Lost(f"{self.where}: unsupported partial application {ast.unparse(node)!r}")
+        # lambda d, m[, t=additional_parameter]: h(d, m[, t | additional_parameter])   (or a local def of that form)
+        lam = None
+        if isinstance(node, ast.Lambda):
+            lam, body = node, node.body
+        elif isinstance(node, ast.FunctionDef):
+            stmts = _strip_docstring(node.body)
+            if len(stmts) == 1 and isinstance(stmts[0], ast.Return) and stmts[0].value is not None:
+                lam, body = node, stmts[0].value
+        if lam is not None:
+            pos, defaults, kwonly = _callable_params(lam)
+            names = pos + kwonly
+            if len(pos) < 2 or len(names) > 3:
+                raise Lost(f"{self.where}: wrapper with arguments {names}")
+            extra = names[2] if len(names) == 3 else None
+            if extra is not None and not (extra in defaults and self.is_param(defaults[extra])):
+                raise Lost(f"{self.where}: the wrapper's argument {extra!r} does not default to the additional parameter")
+            if set(defaults) - {extra}:
+                raise Lost(f"{self.where}: wrapper with defaults for its data / model arguments")
+            if isinstance(body, ast.Call) and not any(isinstance(a, ast.Starred) for a in body.args) \
+                    and all(k.arg is not None for k in body.keywords):
+                name, inner = self.handle_ref(body.func)
+                if inner is None:
+                    def kind(n):
+                        if isinstance(n, ast.Name) and n.id == pos[0]:
+                            return "data"
+                        if isinstance(n, ast.Name) and n.id == pos[1]:
+                            return "model"
+                        if isinstance(n, ast.Name) and extra is not None and n.id == extra:
+                            return "param"
+                        if extra is None and self.is_param(n):
+                            return "param"
+                        return None
+                    kinds = [kind(a) for a in body.args]
+                    kwkinds = {k.arg: kind(k.value) for k in body.keywords}
+                    if None in kinds or None in kwkinds.values():
+                        raise Lost(f"{self.where}: the wrapper passes something else than its own arguments / the "
+                                   f"additional parameter: {ast.unparse(body)!r}")
+                    return name, ("call", kinds, kwkinds)
+            raise Lost(f"{self.where}: unsupported wrapper {ast.unparse(node)!r}")
+        raise Lost(f"{self.where}: unsupported handle expression {ast.unparse(node)!r}")
+
+    def bound(self, node):
+        node = self.resolve(node)
+        q = _num(node)
+        if q is not None:
+            return ("fin", q)
+
+        def is_inf(n):
+            if isinstance(n, ast.Attribute) and isinstance(n.value, ast.Name) and n.value.id in NP_MODULES + ("math",) \
+                    and n.attr in ("inf", "Inf", "infty", "Infinity", "PINF"):
+                return 1
+            if isinstance(n, ast.Attribute) and isinstance(n.value, ast.Name) and n.value.id in NP_MODULES \
+                    and n.attr == "NINF":
+                return -1
+            if isinstance(n, ast.Call) and isinstance(n.func, ast.Name) and n.func.id == "float" and len(n.args) == 1 \
+                    and isinstance(n.args[0], ast.Constant) and isinstance(n.args[0].value, str):
+                s = n.args[0].value.strip().lower()
+                if s in ("inf", "+inf", "infinity", "+infinity"):
+                    return 1
+                if s in ("-inf", "-infinity"):
+                    return -1
+            if isinstance(n, ast.Constant) and isinstance(n.value, float) and n.value in (float("inf"), float("-inf")):
+                return 1 if n.value > 0 else -1
+            return 0
+        if isinstance(node, ast.UnaryOp) and isinstance(node.op, ast.USub):
+            if is_inf(node.operand) == 1:
+                return ("negInf",)
+            q = _num(node.operand)
+            if q is not None:
+                return ("fin", -q)
+            inner = self.bound(node.operand)
+            if inner[0] == "fin":
+                return ("fin", -inner[1])
+        if is_inf(node) == -1:
+            return ("negInf",)
+        if isinstance(node, ast.Call) and len(node.args) == 1 and not node.keywords and (
+                (isinstance(node.func, ast.Name) and node.func.id in ("float", "int")) or
+                (isinstance(node.func, ast.Attribute) and node.func.attr in ("float64", "float32")
+                 and isinstance(node.func.value, ast.Name) and node.func.value.id in NP_MODULES)):
+            return self.bound(node.args[0])
+        raise Lost(f"{self.where}: unsupported lower bound {ast.unparse(node)!r}")
 
 
 def parse_setup(src: str):
-    """-> {objective name: (fn name, fn kw, grad name, grad kw, bound)} read off the if/elif chain."""
-    mod = ast.parse(src)
-    setup = next((s for s in mod.body if isinstance(s, ast.FunctionDef) and s.name == "setup"), None)
+    """-> {objective name: (fn name, fn binding, grad name, grad binding, bound)}, one symbolic run per objective."""
+    tree = ast.parse(src)
+    setup = next((s for s in tree.body if isinstance(s, ast.FunctionDef) and s.name == "setup"), None)
     if setup is None:
         raise Lost("fg_setup.setup")
-    chain = next((s for s in setup.body if isinstance(s, ast.If)), None)
-    if chain is None:
-        raise Lost("fg_setup.setup: if/elif chain")
-    table = {}
-    node = chain
-    while True:
-        t = node.test
-        ok = (isinstance(t, ast.Compare) and len(t.ops) == 1 and isinstance(t.ops[0], ast.Eq)
-              and isinstance(t.left, ast.Name) and t.left.id == "objective"
-              and isinstance(t.comparators[0], ast.Attribute)
-              and isinstance(t.comparators[0].value, ast.Name) and t.comparators[0].value.id == "Objectives")
-        if not ok:
-            raise Lost(f"fg_setup.setup: branch test {ast.unparse(t)!r}")
-        obj = t.comparators[0].attr
-        where = f"fg_setup.setup[{obj}]"
-        got = {}
-        for st in node.body:
-            if _only_raises(st):
-                continue
-            if isinstance(st, ast.Assign) and len(st.targets) == 1 and isinstance(st.targets[0], ast.Name) \
-                    and st.targets[0].id in ("function_handle", "gradient_handle", "lower_bound"):
-                if st.targets[0].id in got:
-                    raise Lost(f"{where}: {st.targets[0].id} assigned twice")
-                got[st.targets[0].id] = st.value
-            else:
-                raise Lost(f"{where}: unsupported statement at line {st.lineno}")
-        if set(got) != {"function_handle", "gradient_handle", "lower_bound"}:
-            raise Lost(f"{where}: missing {sorted({'function_handle', 'gradient_handle', 'lower_bound'} - set(got))}")
-        if obj in table:
-            raise Lost(f"{where}: objective tested twice")
-        fn, fkw = _handle_ref(got["function_handle"], where)
-        gr, gkw = _handle_ref(got["gradient_handle"], where)
-        table[obj] = (fn, fkw, gr, gkw, _bound(got["lower_bound"], where))
-        if len(node.orelse) == 1 and isinstance(node.orelse[0], ast.If):
-            node = node.orelse[0]
-            continue
-        if not all(isinstance(s, ast.Raise) for s in node.orelse):
-            raise Lost("fg_setup.setup: final else branch is not a raise")
-        break
-    # what is returned must be the three variables, in this order
-    ret = next((s for s in setup.body if isinstance(s, ast.Return)), None)
-    if ret is None or not isinstance(ret.value, ast.Tuple) or \
-            [getattr(e, "id", None) for e in ret.value.elts] != ["function_handle", "gradient_handle", "lower_bound"]:
-        raise Lost("fg_setup.setup: return (function_handle, gradient_handle, lower_bound)")
-    return table
+    imported = {}
+    for st in tree.body:
+        if isinstance(st, ast.ImportFrom) and st.module in ("pyttb.gcp.handles", "handles", ".handles") \
+                or (isinstance(st, ast.ImportFrom) and st.module == "handles" and st.level == 1):
+            for a in st.names:
+                imported[a.asname or a.name] = a.name
+    table, errors = {}, []
+    for obj in OBJECTIVES:
+        try:
+            ex = SetupExec(setup, obj, imported)
+            # module-level tables / aliases of fg_setup.py
+            for st in tree.body:
+                if isinstance(st, ast.Assign) and len(st.targets) == 1 and isinstance(st.targets[0], ast.Name) \
+                        and isinstance(st.value, (ast.Dict, ast.Attribute, ast.Lambda)):
+                    ex.env[st.targets[0].id] = st.value
+            r = ex.run(setup.body)
+            if r is None:
+                raise Lost(f"{ex.where}: no return")
+            if r[0] == "raise":
+                raise Lost(f"{ex.where}: raises for this objective")
+            val = r[1]
+            if not isinstance(val, ast.Tuple) or len(val.elts) != 3:
+                raise Lost(f"{ex.where}: return (function_handle, gradient_handle, lower_bound)")
+            fn, fb = ex.handle_ref(val.elts[0])
+            gr, gb = ex.handle_ref(val.elts[1])
+            table[obj] = (fn, fb, gr, gb, ex.bound(val.elts[2]))
+        except Lost as e:
+            errors.append(str(e))
+    return table, errors
 
 
 # ----------------------------------------------------------------------------
@@ -261,13 +763,38 @@ def lean_expr(e) -> str:
         return f"(.const {lean_rat(e[1])})"
     if k == "powNat":
         return f"(.powNat {lean_expr(e[1])} {e[2]})"
-    if len(e) == 2:
-        return f"(.{k} {lean_expr(e[1])})"
-    return f"(.{k} {lean_expr(e[1])} {lean_expr(e[2])})"
+    return "(." + k + "".join(" " + lean_expr(x) for x in e[1:]) + ")"
 
 
 def uses(e, leaf):
     return e[0] == leaf or any(isinstance(x, tuple) and uses(x, leaf) for x in e[1:])
+
+
+def binding_param(binding, fn_node: ast.FunctionDef, param):
+    """The name of the handle parameter a table binding sets to the additional parameter (None: nothing bound).
+    Raises Lost when the binding does not pass (data, model) through in this order."""
+    if binding is None:
+        return None
+    if binding[0] == "kw":
+        return binding[1]
+    _tag, kinds, kwkinds = binding
+    pos, _d, kwonly = _callable_params(fn_node)
+    got = {}
+    for p, k in zip(pos, kinds):
+        got[p] = k
+    if len(kinds) > len(pos):
+        raise Lost(f"too many arguments for handles.{fn_node.name}")
+    for k, v in kwkinds.items():
+        if k in got or k not in pos + kwonly:
+            raise Lost(f"bad keyword {k!r} for handles.{fn_node.name}")
+        got[k] = v
+    names = pos + kwonly
+    if got.get(names[0]) != "data" or got.get(names[1]) != "model":
+        raise Lost(f"the wrapper of handles.{fn_node.name} does not pass (data, model) through in this order")
+    bound = [n for n in names[2:] if got.get(n) == "param"]
+    if any(got.get(n) == "param" for n in names[:2]) or any(got.get(n) in ("data", "model") for n in names[2:]):
+        raise Lost(f"the wrapper of handles.{fn_node.name} mixes up its arguments")
+    return bound[0] if bound else None
 
 
 def build():
@@ -275,20 +802,16 @@ def build():
     lost = []
     hsrc = (REPO / "pyttb" / "gcp" / "handles.py").read_text()
     ssrc = (REPO / "pyttb" / "gcp" / "fg_setup.py").read_text()
-    eps, members, fns = parse_handles(hsrc)
+    eps, members, mod = parse_handles(hsrc)
+    fns = mod.fns
     if members is None or sorted(members) != sorted(OBJECTIVES):
         lost.append(f"handles.Objectives (members {members})")
     try:
-        table = parse_setup(ssrc)
+        table, errors = parse_setup(ssrc)
+        lost += errors
     except Lost as ex:
         lost.append(str(ex))
         table = {}
-    for o in OBJECTIVES:
-        if table and o not in table:
-            lost.append(f"fg_setup.setup[{o}]")
-    for o in table:
-        if o not in OBJECTIVES:
-            lost.append(f"fg_setup.setup[{o}] (not a known objective)")
     exprs = {}
     params = {}
     desc = {"handles": {}, "table": {}, "eps": None if eps is None else str(eps)}
@@ -296,38 +819,49 @@ def build():
     for o in OBJECTIVES:
         if o not in table:
             continue
-        fn, fkw, gr, gkw, bound = table[o]
+        fn, fb, gr, gb, bound = table[o]
         okrow = True
-        for name, kw in ((fn, fkw), (gr, gkw)):
+        kws = []
+        for name, binding in ((fn, fb), (gr, gb)):
+            kw = None
             if name not in exprs:
                 if name not in fns:
                     lost.append(f"handles.{name}")
                     okrow = False
+                    kws.append(None)
                     continue
                 try:
-                    p, e = tr_function(fns[name], eps is not None)
+                    p, e = tr_function(fns[name], mod)
                 except Lost as ex:
                     lost.append(str(ex))
                     okrow = False
+                    kws.append(None)
                     continue
                 exprs[name] = e
                 params[name] = p
                 desc["handles"][name] = {"param": p}
-            if name in exprs and params[name] != kw:
-                # the keyword bound by partial() must be the handle's own extra argument
-                lost.append(f"fg_setup.setup[{o}]: {name} takes parameter {params[name]!r} but the table binds {kw!r}")
-                okrow = False
+            if name in exprs:
+                try:
+                    kw = binding_param(binding, fns[name], params[name])
+                except Lost as ex:
+                    lost.append(f"fg_setup.setup[{o}]: {ex}")
+                    okrow = False
+                if okrow and params[name] != kw:
+                    # what the table binds must be the handle's own extra argument
+                    lost.append(f"fg_setup.setup[{o}]: {name} takes parameter {params[name]!r} but the table binds {kw!r}")
+                    okrow = False
+            kws.append(kw)
         if okrow:
-            rows[o] = (fn, gr, bound, fkw is not None)
-            desc["table"][o] = {"fn": fn, "grad": gr, "param": fkw,
+            rows[o] = (fn, gr, bound, kws[0] is not None)
+            desc["table"][o] = {"fn": fn, "grad": gr, "param": kws[0],
                                 "lower": None if bound[0] == "negInf" else str(bound[1])}
-    # every other top-level function of handles.py that reads as a handle is translated too
+    # every other public top-level function of handles.py that reads as a handle is translated too
     # (so that a handle the table no longer refers to can still be evaluated by the driver)
     for name, fn in fns.items():
-        if name in exprs:
+        if name in exprs or name.startswith("_"):
             continue
         try:
-            p, e = tr_function(fn, eps is not None)
+            p, e = tr_function(fn, mod)
         except Lost:
             continue
         exprs[name] = e
